@@ -20,15 +20,15 @@ def convert(rec):
         if op in ("accept", "open_poll") and c.get("res") == "ok":
             names[e][c["sh"]] = nxt[e]
             nxt[e] += 1
-        if op in ("write", "read", "shutdown", "drop"):
+        if op in ("write", "read", "shutdown", "drop", "bridge_start"):
             if c["h"] not in names[e]:
                 return None
             d["h"] = names[e][c["h"]]
-        for k in ("c", "host", "port", "draws", "len", "max", "gr", "gs", "id", "data", "kind"):
+        for k in ("c", "host", "port", "draws", "len", "max", "gr", "gs", "id", "data", "kind", "bt", "r", "accept", "b", "env"):
             if k in c:
                 d[k] = c[k]
         cmds.append(d)
-    cmds.append({"op": "quiesce", "lazy": True})
+    cmds.append({"op": "quiesce", "lazy": not any(c["op"].startswith(("bind", "next_bind", "bridge")) for c in rec["cmds"])})
     return {"cfg": rec["cfg"], "real": 2, "cmds": cmds}
 
 
